@@ -23,6 +23,61 @@ pub type Bad = (String, String);
 
 pub fn judge_c16(b: &Built, bad: &mut Vec<Bad>, stats: &mut BTreeMap<String, u64>) {
     let env = Env::new(&b.mods, b.ptrw);
+    // address -> (declaring function, where)
+    let mut by_address: BTreeMap<u128, (&Function, String)> = BTreeMap::new();
+    for (mp, m) in &b.mods {
+        for blk in &m.impls {
+            for f in &blk.functions {
+                if let Some(a) = attr_int(&f.attributes, "address") {
+                    if a >= 0 {
+                        by_address.insert(a as u128, (f, format!("{mp}::{}::{}", blk.name, f.name)));
+                    }
+                }
+            }
+        }
+    }
+    for (mp, ef) in &b.efiles {
+        for em in &ef.methods {
+            if let Body::Address { address, fnptr, .. } = &em.body {
+                if let Some((f, origin)) = by_address.get(address) {
+                    *stats.entry("address_bodies_compared_by_address".into()).or_insert(0) += 1;
+                    let want = expected_convention(f).unwrap_or_else(|e| format!("<invalid:{e}>"));
+                    if fnptr.abi.as_deref() != Some(want.as_str()) {
+                        bad.push((
+                            "C16/wrapper-convention".into(),
+                            format!("`{mp}::{}::{}` calls {address:#x}, the address of `{origin}` (extern \"{want}\"), through extern {:?}", em.owner, em.name, fnptr.abi),
+                        ));
+                    }
+                }
+            }
+        }
+    }
+    // a derived table repeats the base's slots: same convention in both emitted tables
+    for (path, def) in &env.defs {
+        if !matches!(def, refprog::Def::Type { .. }) || env.vftable_block(path).is_none() {
+            continue;
+        }
+        let Some((_, Some(base))) = env.bases(path).into_iter().next() else { continue };
+        let Some(base_owner) = env.vftable_owner(&base) else { continue };
+        let get = |p: &str| -> Option<&crate::emitted::EStruct> {
+            b.efiles.get(refprog::parent_of(p)).and_then(|f| f.struct_(&format!("{}Vftable", refprog::last_of(p))))
+        };
+        let (Some(dt), Some(bt)) = (get(path), get(&base_owner)) else { continue };
+        for (i, bf) in bt.fields.iter().enumerate() {
+            let Some(df) = dt.fields.get(i) else {
+                bad.push(("C16/derived-table-shorter".into(), format!("`{path}`'s table lacks slot {i} (`{}`) of `{base_owner}`", bf.name)));
+                break;
+            };
+            *stats.entry("inherited_slot_conventions_compared".into()).or_insert(0) += 1;
+            let (ba, da) = (bf.fnptr.as_ref().and_then(|p| p.abi.clone()), df.fnptr.as_ref().and_then(|p| p.abi.clone()));
+            if ba != da {
+                bad.push((
+                    "C16/derived-slot-convention-differs".into(),
+                    format!("slot {i} `{}` is extern {ba:?} in `{base_owner}Vftable` but extern {da:?} in `{path}Vftable`", bf.name),
+                ));
+            }
+        }
+    }
     for (mp, m) in &b.mods {
         let mps = mp.to_string();
         let Some(ef) = b.efiles.get(&mps) else { continue };
@@ -594,6 +649,47 @@ pub fn run_c16(ctx: &mut Ctx) {
     }
     ctx.exhaustive = Some(true);
     ctx.extra.insert("exhaustive_scope".into(), json!("the convention x receiver x depth x width product is complete; random programs are samples"));
+    // hostile: the derived table of the exhaustive chains alters or drops the convention of
+    // an inherited slot (must be rejected; if accepted, the two tables disagree and are judged)
+    {
+        let mut rng = Rng::derive(ctx.seed, 0x16AA);
+        let base_len = inputs.len();
+        let mut extra = vec![];
+        for (id, mods, ptrw) in inputs.iter().skip(n) {
+            let mut m2 = mods.clone();
+            let mut touched = false;
+            for (_, m) in m2.iter_mut() {
+                for d in m.definitions.iter_mut().skip(1) {
+                    if let ItemDefinitionInner::Type(td) = &mut d.inner {
+                        for st in td.statements.iter_mut() {
+                            if let TypeField::Vftable(fs) = &mut st.field {
+                                if let Some(f) = fs.first_mut() {
+                                    let cur = crate::refmodel::attr_str(&f.attributes, "calling_convention");
+                                    f.attributes.0.retain(|a| !matches!(a, Attribute::Function(i, _) if i.as_str() == "calling_convention"));
+                                    if cur.is_none() || rng.coin() {
+                                        let other = *rng.pick(&["cdecl", "stdcall", "fastcall", "C"]);
+                                        if cur.as_deref() != Some(other) {
+                                            f.attributes.0.push(Attribute::calling_convention(other));
+                                        }
+                                    }
+                                    touched = true;
+                                }
+                            }
+                        }
+                    }
+                }
+            }
+            if touched {
+                let new_id = format!("k{}_", base_len + extra.len());
+                for (p, _) in m2.iter_mut() {
+                    *p = ItemPath::from(p.to_string().replacen(id.as_str(), &new_id, 1).as_str());
+                }
+                extra.push((new_id, m2, *ptrw));
+            }
+        }
+        ctx.count("hostile_derived_convention_cases", extra.len() as u64);
+        inputs.extend(extra);
+    }
     let built: Vec<BuildOutcome> = inputs.par_iter().map(|(id, mods, ptrw)| l2::build_mods(id, mods, *ptrw)).collect();
     let mut stats = BTreeMap::new();
     let mut accepted: Vec<Built> = vec![];
@@ -842,10 +938,17 @@ fn c14_files(mods: &[(ItemPath, Module)], rng: &mut Rng) -> Vec<(String, String)
 pub fn run_c14(ctx: &mut Ctx) {
     ctx.rule = "random multi-module trees (nested directories, modules without items, several backend blocks per module: rust and non-rust, prologue-only/epilogue-only/both with marker items) written to a real directory and built with pyxis::build; the output directory listing and the top-level items of every emitted file are compared with the declarations; collision inputs (duplicate type names, duplicate enum/type, user type named <T>Vftable next to T with a vftable block, duplicate extern type) must be rejected, and the hook event RegistryAdd{replaced: different} shows a silent overwrite at the moment it happens. non-trivial = accepted tree with >=2 modules, >=1 nested directory and >=1 backend block, or a collision input; distinct by structural hash".into();
     let n = ctx.tier.pick(500, 8000);
-    let inputs = gen_inputs(ctx.seed, n, 0x1400_0000, |c| {
+    let mut inputs = gen_inputs(ctx.seed, n, 0x1400_0000, |c| {
         c.backends = true;
         c.max_modules = 4;
     });
+    // a third are hostile variants (e.g. emptied vftable blocks, extra by-value fields)
+    for (i, inp) in inputs.iter_mut().enumerate() {
+        if i % 3 == 2 {
+            let mut rng = Rng::derive(ctx.seed, 0x1480_0000 + i as u64);
+            crate::hostile::perturb(&mut inp.1, &mut rng);
+        }
+    }
     let seed = ctx.seed;
     struct R {
         bad: Vec<Bad>,
